@@ -95,6 +95,30 @@ var arrFns = []struct {
 	{"in_array_keys", []string{"array_key_first", "array_key_last"}, `array_key_first(["q"=>1,"b"=>2,"z"=>3]) . array_key_last(["q"=>1,"b"=>2,"z"=>3])`},
 	{"array_sum_product", []string{"array_sum"}, `array_sum(["q"=>1,"b"=>2,"z"=>3])`},
 	{"implode_assoc", []string{"implode"}, `implode(",", ["q"=>"x","b"=>"y","z"=>"w"])`},
+	// optional arguments and less usual forms of the same builtins (every branch that walks a map is a candidate)
+	{"array_keys_search", []string{"array_keys"}, `json_encode(array_keys(["q"=>1,"b"=>2,"z"=>1,"a"=>1], 1))`},
+	{"array_keys_search_strict", []string{"array_keys"}, `json_encode(array_keys(["q"=>"1","b"=>1,"z"=>1,"a"=>"1"], 1, true))`},
+	{"array_slice_preserve", []string{"array_slice"}, `json_encode(array_slice(["q"=>1,"b"=>2,"z"=>3,"a"=>4], 1, 2, true))`},
+	{"array_slice_neg", []string{"array_slice"}, `json_encode(array_slice(["q"=>1,"b"=>2,"z"=>3,"a"=>4], -3, 2))`},
+	{"array_reverse_preserve", []string{"array_reverse"}, `json_encode(array_reverse(["q"=>1,"b"=>2,"z"=>3], true))`},
+	{"array_filter_use_key", []string{"array_filter"}, `json_encode(array_filter(["q"=>1,"b"=>2,"z"=>3,"a"=>4], function($k) { return $k != "b"; }, ARRAY_FILTER_USE_KEY))`},
+	{"array_filter_use_both", []string{"array_filter"}, `json_encode(array_filter(["q"=>1,"b"=>2,"z"=>3,"a"=>4], function($v, $k) { return $v > 1 && $k != "z"; }, ARRAY_FILTER_USE_BOTH))`},
+	{"array_filter_nocb", []string{"array_filter"}, `json_encode(array_filter(["q"=>1,"b"=>0,"z"=>3,"a"=>null]))`},
+	{"array_map_two", []string{"array_map"}, `json_encode(array_map(function($x, $y) { return $x . $y; }, ["q"=>"a","b"=>"b"], ["z"=>"c","a"=>"d"]))`},
+	{"array_search_assoc", []string{"array_search"}, `json_encode(array_search(1, ["q"=>2,"b"=>1,"z"=>1,"a"=>1]))`},
+	{"in_array_strict", []string{"in_array"}, `json_encode(in_array("1", ["q"=>1,"b"=>"1"], true))`},
+	{"array_unique_flags", []string{"array_unique"}, `json_encode(array_unique(["q"=>"7","b"=>"07","z"=>"7.0","a"=>"x"], SORT_NUMERIC))`},
+	{"array_flip", []string{"array_flip"}, `json_encode(array_flip(["q"=>"x","b"=>"y","z"=>"x"]))`},
+	{"array_fill_keys", []string{"array_fill_keys"}, `json_encode(array_fill_keys(["q","b","z"], 0))`},
+	{"array_pad_assoc", []string{"array_pad"}, `json_encode(array_pad(["q"=>1,"b"=>2], 4, 0))`},
+	{"json_encode_pretty", []string{"json_encode"}, `json_encode(["q"=>1,"b"=>["z"=>2,"a"=>3]], JSON_PRETTY_PRINT)`},
+	{"http_build_query", []string{"http_build_query"}, `http_build_query(["q"=>1,"b"=>2,"z"=>["k"=>3,"a"=>4]])`},
+	{"compact_vars", []string{"compact"}, `(function() { $q = 1; $b = 2; $z = 3; return json_encode(compact("q", "b", "z")); })()`},
+	{"strtr_assoc", []string{"strtr"}, `strtr("hello world", ["hello"=>"HI","hi"=>"X","world"=>"W","o"=>"0"])`},
+	{"var_export_nested", []string{"var_export"}, `var_export(["q"=>1,"b"=>["z"=>2,"a"=>3]], true)`},
+	{"serialize_nested", []string{"serialize"}, `serialize(["q"=>1,"b"=>["z"=>2,"a"=>3]])`},
+	{"min_max_assoc", []string{"min"}, `json_encode([min(["q"=>3,"b"=>1,"z"=>1]), max(["q"=>3,"b"=>3,"z"=>1])])`},
+	{"usort_rows_ties", []string{"usort"}, `(function() { $a = [["k"=>"q","v"=>1],["k"=>"b","v"=>1],["k"=>"z","v"=>0]]; usort($a, function($x, $y) { return $x["v"] - $y["v"]; }); return json_encode($a); })()`},
 	// sort flags: under SORT_NUMERIC several keys compare equal ("07" and "7"; every non-numeric key is 0)
 	{"ksort_numeric_ties", []string{"ksort"}, `(function() { $a = ["x"=>1,"07"=>2,"y"=>3,"7"=>4,"b"=>5]; ksort($a, SORT_NUMERIC); return json_encode($a); })()`},
 	{"krsort_numeric_ties", []string{"krsort"}, `(function() { $a = ["x"=>1,"07"=>2,"y"=>3,"7"=>4,"b"=>5]; krsort($a, SORT_NUMERIC); return json_encode($a); })()`},
